@@ -626,6 +626,81 @@ func (c14Engine) Exec(t *testing.T, cc any) *simrt.Result {
 		sim.Drive()
 		sim.Advance(4 * time.Second)
 		dh.db.Close()
+		// ---- 5T. the same through the handler's periodic flush (batch never
+		// full, 1 s ticker): the first attempt fails, and while the inserter sits
+		// in its back-off further STORABLE events arrive; after the retry and one
+		// more flush the answers are those of the batch plus the late events
+		if dtw, dt := fresh("tick-twin"), fresh("tick"); dtw != nil && dt != nil {
+			var late []*mocrelay.Event
+			for i := 0; i < 2; i++ {
+				sp := simrt.EvSpec{Author: 2, Kind: 1, CreatedAt: int64(3000 + i), Content: fmt.Sprintf("late-tick-%d", i)}
+				late = append(late, sp.Event())
+			}
+			err1, err2 := dtw.insert(bg, batch), error(nil)
+			if err1 == nil {
+				err2 = dtw.insert(bg, late)
+			}
+			Q1L, qerr := c14Ask(dtw, probes)
+			dtw.db.Close()
+			if err1 != nil || err2 != nil || qerr != nil {
+				fail("insert-error", nil, "fault-free insertion of the batch and two further events failed: %v %v %v", err1, err2, qerr)
+			} else {
+				tctx, tcancel := context.WithCancel(bg)
+				ht, err := mocsqlite.NewSQLiteHandler(tctx, dt.db, &mocsqlite.SQLiteHandlerOption{EventBulkInsertNum: len(distinct) + 5, EventBulkInsertDur: time.Second, MaxLimit: mocsqlite.NoLimit})
+				if err != nil {
+					sim.Res.Harness = "NewSQLiteHandler: " + err.Error()
+					tcancel()
+					return
+				}
+				begun, hit := 0, 0
+				plan.FailAt = 0
+				tbase := 0
+				plan.Hook = func(n int, what string) error {
+					if what == "begin" {
+						begun++
+						tbase = n - 1
+					}
+					if begun == 1 && n-tbase == f1 {
+						hit++
+						return simrt.ErrInjected
+					}
+					return nil
+				}
+				plan.Arm()
+				ct := sim.NewClient(bg, "ht", nil)
+				ct.Serve(ht)
+				for _, e := range batch {
+					ct.Do(simrt.Op{Kind: "send", Msg: &simrt.Msg{T: "EVENT", EvObj: e}})
+				}
+				sim.Drive()
+				sim.Advance(1*time.Second + 10*time.Millisecond) // tick: periodic flush, first attempt
+				for _, e := range late {
+					ct.Do(simrt.Op{Kind: "send", Msg: &simrt.Msg{T: "EVENT", EvObj: e}})
+				}
+				sim.Drive()
+				st.Fault("periodic-flush-fails-intake-goes-on")
+				for i := 0; i < 4; i++ {
+					sim.Advance(1*time.Second + 10*time.Millisecond)
+				}
+				plan.Disarm()
+				plan.Hook = nil
+				if hit == 0 {
+					st.Probe("tick_flush_fault_not_reached")
+				}
+				if q, qerr := c14Ask(dt, probes); qerr != nil {
+					fail("query-error", nil, "after the periodic flush: %v", qerr)
+				} else if d := c14Diff(Q1L, q); d != "" {
+					fail("not-idempotent", map[string]string{"after": "periodic-flush-retry"}, "handler with a 1 s periodic flush: first attempt failed at point %d (%d injected), two further events arrived during the back-off, 5 s later the answers differ from a fault-free insertion of the batch and those events: %s", f1, hit, d)
+				}
+				ct.Cancel()
+				tcancel()
+				sim.Drive()
+				sim.Advance(4 * time.Second)
+			}
+			dt.db.Close()
+		} else {
+			return
+		}
 		// ---- 6. shutdown: events the handler acknowledged but still holds in its
 		// partial batch must reach the database when the handler's context ends
 		// (its 3s flush), and survive the reopen
